@@ -193,7 +193,9 @@ def createFolder (env : Env) (t : Node) (o : CreateOpts) : Outcome :=
           | none => some p
     let (session, notFound, renamed) :=
       if o.detectRenaming then
-        let (s, foundOld, ren) := detectRenames env t rootHist st.session st.newPaths notFound
+        -- the not-found paths are visited in the sorted order of their path strings (`sorted(not_found_paths)`)
+        let (s, foundOld, ren) := detectRenames env t rootHist st.session st.newPaths
+          (isort (fun a b => strLe (posix a) (posix b)) notFound)
         (s, notFound.filter fun p => !foundOld.contains p, ren)
       else (st.session, notFound, [])
     match commit rootHist session env.rootName env.stamp "in-place" with
